@@ -78,7 +78,7 @@ def emit_module(inst):
 
 
 def cfg_emit(inst, extra_ops=()):
-    nxt = ("NextR2" if "slice" in extra_ops else "NextR") if emit_module(inst) == "SodgR" else "NextX"
+    nxt = ("NextR2" if "slice" in extra_ops else "NextR3" if "inspect" in extra_ops else "NextR") if emit_module(inst) == "SodgR" else "NextX"
     return (f"INIT Init\nNEXT {nxt}\nVIEW view\nACTION_CONSTRAINT Emit\n"
             + consts(inst, "Extra = " + tla_set(extra_ops) + r_consts(inst)) + "CHECK_DEADLOCK FALSE\n")
 
@@ -148,7 +148,13 @@ def e1_impl(run, acc, tier):
 def e2_product(run, acc, inst, cfgs, extra_ops=(), observers=(), budget=3000000, need_gc=True):
     ts, cached = vlib.emit_ts(run, emit_module(inst), cfg_emit(inst, extra_ops))
     for (n, cap, tok) in cfgs:
-        j = vlib.product(run, [ts], TOKENS[tok], n, cap, observers=observers, budget=budget)
+        j = vlib.product(run, [ts], TOKENS[tok], n, cap, observers=tuple(observers) + (("inspect",) if "inspect" in extra_ops else ()), budget=budget)
+        if j.get("crashed"):
+            pj = j["progress"]
+            acc.fails.append({"prop": "C20", "what": f"{pj['observer']} did not terminate normally (harness process ended with status {j['rc']}: stack overflow or hang)",
+                              "source": f"E2 product {inst} N={n} cap={cap}", "replay": {"n": n, "cap": cap, "calls": pj["calls"], "observer": pj["observer"]}, "sig": "crash"})
+            acc.e2.append({"instance": inst, "n": n, "cap": cap, "crashed": True})
+            continue
         acc.states += j["product_states"]
         acc.transitions += j["executions"]
         rec = {k: j[k] for k in ("n", "cap", "spec_states", "spec_transitions", "executions", "product_states", "closed",
@@ -535,7 +541,33 @@ def plan_label(run, prop, tier):
     return acc
 
 
+def plan_export(run, prop, tier):
+    """C18 (XML, DOT) and C20 (Debug, Display, v_print, inspect): read-only observers at every product state; the text is
+    parsed back into facts and compared with the specification state; differences are judged by Trace.tla."""
+    acc = Acc()
+    if prop == "C18":
+        obs, extra = ("xml", "dot"), ()
+    else:
+        obs, extra = ("debug",), ("inspect",)
+    # cap > number of ids: there are always never-added slots; dead slots keep stale contents (snapshots are not masked)
+    e2_product(run, acc, "A3", [(2, 5, 0), (16, 32, 2)], extra_ops=extra, observers=obs)
+    e2_product(run, acc, "C2", [(2, 4, 0), (4, 3, 2)], extra_ops=extra, observers=obs)
+    e2_product(run, acc, "G3", [(2, 3, 0)], extra_ops=extra, observers=obs, need_gc=False)
+    e2_product(run, acc, "F4a", [(1, 6, 2)], extra_ops=extra, observers=obs)
+    if tier == "thorough":
+        e2_product(run, acc, "F5", [(1, 5, 0)], extra_ops=extra, observers=obs)
+        e2_product(run, acc, "F4b", [(2, 4, 0)], extra_ops=extra, observers=obs)
+        e2_product(run, acc, "D3", [(1, 4, 2)], extra_ops=extra, observers=obs)
+        e2_product(run, acc, "G4", [(2, 4, 0)], extra_ops=extra, observers=obs, need_gc=False, budget=20000000)
+    for r in acc.e2:
+        if not r.get("crashed") and not r.get("observer_checks"):
+            raise ToolError("vacuity: no observer check executed")
+    return acc
+
+
 PLANS = {p: plan_gc for p in ("C01", "C02", "C03", "C04", "C06")}
+PLANS["C18"] = plan_export
+PLANS["C20"] = plan_export
 PLANS["C17"] = plan_label
 PLANS["C15"] = plan_hex
 PLANS["C16"] = plan_hex
